@@ -190,6 +190,13 @@ func init() {
 		explanation: "Decides structural clauses of C03: (panics) the inventory of explicit panics is exactly the reviewed one (the documented precision-range panic, plus four index-error panics whose structural premises — index shape and guards — are re-checked); (make) every make() length/capacity is provably non-negative by interval analysis with dominating-branch refinement; (div) every integer division/remainder has a non-zero constant divisor; (flag) c.succeeded is assigned on every path through executeInternal and read only afterwards; (ring) every ring walk exits on cursor==start (no one-node walks, no walks that cannot terminate on a well-formed ring). Does NOT decide nil-dereference freedom of the linked structures, variable-index safety or termination of invariant-dependent scans.",
 		notDecided: []string{"nil-dereference freedom of AEL/SEL/OutPt links", "variable-index safety (intersectList[j] scan, path[i] in the rectangle scans)", "termination of fixSelfIntersects / doMaxima / processIntersectList scans", "reachability of succeeded=false in addLocalMaxPoly", "memory/time blow-up for absurd radii (Ellipse step count)"},
 		rules: []func(*Ctx){
+			ruleVarIndex("C03.index.var", map[string]int{
+				// reads guarded on the confirmed tree by `index < len` / `index <= len-1` on the same index value
+				// (range loops are safe by construction and are not listed)
+				"(RectClip64).executeInternalPath64:path[i]": 3, "(RectClip64).tidyEdgePair:cw[i]": 15, "(RectClip64).tidyEdgePair:ccw[j]": 3,
+				"(ClipperOffset).buildNormals:path[i]": 1, "PointInPolygon:polygon[start]": 1, "SimplifyPath64:path[i]": 1, "SimplifyPathD:path[i]": 1,
+				"StripDuplicates:path[i]": 2, "TrimCollinear64:path[i]": 1, "startLocsAreClockwise:startLocs[i]": 1,
+			}),
 			rulePanics("C03.panics"), ruleMakeSizes("C03.make"), ruleConstIndex("C03.index", map[string]string{
 				"TrimCollinear64:path": "path[0] == path[1] is evaluated only after `l < 2` was false, and l never exceeds len(path) (it starts there and is only decremented), so len(path) >= 2",
 			}), ruleDivisors("C03.div"), ruleSucceeded("C03.flag"), ruleRing("C03.ring", 25, whyRing),
@@ -201,6 +208,7 @@ func init() {
 		notDecided: []string{"crossing-history logic of executeInternal (firstCross/startLocs bookkeeping)", "checkEdges / tidyEdgePair re-joining (tidyEdgePair tests horizontal overlap on vertical edges: only region-equivalent differences could be produced)", "1-unit rounding of intersection points"},
 		rules: []func(*Ctx){
 			ruleRectMirror("C06.mirror"),
+			ruleSegIntersectMirror("C06.mirror.seg"),
 			ruleDead("C06.corner-live", []string{"(RectClip64).executeInternal"}, []string{"(RectClip64).addCorner", "(RectClip64).addCornerLocation"}, 5, "corners of the rectangle enter the result only through these calls; when they are dead a path that leaves through one edge and re-enters through another loses the corner between them"),
 			ruleRectFast("C06.fast"),
 			ruleBounds("C06.bounds", []string{"getBounds"}),
